@@ -129,8 +129,12 @@ def gen_case(r, maxports=4, globs=True, allow_collisions=True):
             schema[port] = {l[-1]: {'_default': leaves[l]} for l in vs}
             if kind == 'out':
                 schema[port]['_output'] = True
-            elif r.random() < 0.15:
-                schema[port]['_divider'] = 'set'      # a branch-level divider declared in the port (not a variable)
+            else:
+                x = r.random()
+                if x < 0.15:
+                    schema[port]['_divider'] = 'set'      # a branch-level divider declared in the port (not a variable)
+                elif x < 0.3:
+                    schema[port]['_output'] = False       # the flag is present but off: an ordinary readable port
             topo[port] = list(rel_path(ploc, B))
         elif kind == 'dictpath':
             vs = r.sample(bl, r.randint(1, len(bl)))
